@@ -48,6 +48,8 @@ class Ctx(object):
         self._mir = None
         self._src_hash = None
         self.fail_closed = []     # UNANALYSABLE / floor failures: (key, message)
+        self._included = set()
+        self._shared_samples = []
         self.exhaustive = True    # rules set this to False when a domain is sampled rather than enumerated completely
         self.exhaustive_note = ''
 
@@ -133,6 +135,9 @@ class Ctx(object):
     def include(self, name, fn):
         """run fn(sub_ctx) once per tree hash; merge its obligations into this check. The cached record is keyed by the
         hash of /repo's sources (and the extractor binaries), so it is only ever reused for byte-identical sources."""
+        if name in self._included:
+            return
+        self._included.add(name)
         _ = self.prog  # forces fact extraction -> hash
         d = os.path.join(facts.CACHE, self._src_hash)
         path = os.path.join(d, 'shared-%s-%s.json' % (name, self.tier))
@@ -175,8 +180,7 @@ class Ctx(object):
         for f in rec['fail_closed']:
             self.fail_closed.append(tuple(f))
         for s_ in rec['samples']:
-            if len(self.samples) < 40:
-                self.samples.append(s_)
+            self._shared_samples.append(s_)
         for a in rec['assumptions']:
             if a not in self.assumptions:
                 self.assumptions.append(a)
@@ -231,18 +235,18 @@ class Ctx(object):
                         'non-trivial when it examined at least one site of /repo',
                 'rules': self.rules,
                 'rule_kinds': nontrivial,
-                'samples': self.samples[:40] or ['(none)'],
+                'samples': (self.samples[:34] + self._shared_samples[:6]) or ['(none)'],
                 'exhaustive': bool(self.exhaustive),
                 'exhaustive_note': self.exhaustive_note or ('every table enumerates its whole finite domain' if self.exhaustive else ''),
                 'notes': self.notes[:20],
                 'checker_cmd': './check %s --tier %s' % (self.pid, self.tier),
                 'trusted_base': ['syn parser (srcfacts)', 'rustc nightly MIR (mirfacts)', 'checker/pete.py integer semantics',
                                  'hand-written oracles under /verif/oracles'],
-                'not_decided': self.not_decided,
+                'not_decided': sorted(set(self.not_decided)),
                 'known_findings_reported': n_known,
                 'src_hash': self._src_hash,
             },
-            'assumptions': self.assumptions,
+            'assumptions': sorted(set(self.assumptions)),
             'wall_s': round(wall, 3),
             'violations': n_new,
         }
